@@ -58,7 +58,59 @@ def selection_oracle(ctx, c):
     return len(sels)
 
 
+def two_live_fillers(a):
+    """(child) two fillers of one process alive at the same time (different sub-directories of the same split, their infos
+    committed together), writing interleaved label sequences; returns per listed shard (recorded label, labels its examples were written under)."""
+    import random
+    from pathlib import Path
+    import shutil
+    from harness.core import sp
+    sp.sedpack()
+    from sedpack.io import Dataset
+    from sedpack.io.dataset_filler import DatasetFiller
+    rng = random.Random(a["seed"])
+    root = Path(a["root"]); shutil.rmtree(root, ignore_errors=True)
+    ds = sp.mk(root, fmt=a["fmt"], eps=a["eps"])
+    label_of = {}
+    fillers = [DatasetFiller(ds, relative_path_from_split=Path(f"w{k}"), auto_update_dataset=False) for k in range(2)]
+    ctxs = [f.__enter__() for f in fillers]
+    v = 0
+    cur = [1, 2]
+    try:
+        for step in range(a["steps"]):
+            k = rng.randrange(2)
+            if rng.random() < 0.4:
+                cur[k] = rng.choice([1, 2, 3])
+            for _ in range(rng.choice([1, 1, 2, a["eps"]])):
+                ctxs[k].write_example(values=sp.val(v), split="train", custom_metadata=F.md_value(cur[k])); label_of[v] = cur[k]; v += 1
+    finally:
+        for f in fillers:
+            f.__exit__(None, None, None)
+    ds.write_config(updated_infos=[i for f in fillers for i in f.get_updated_infos()])
+    d2 = Dataset(root)
+    out = []
+    for si in d2.shard_info_iterator("train"):
+        ids = F.decode_shard(d2, d2.path / si.file_infos[0].file_path)
+        out.append({"recorded": F.md_code(si.custom_metadata), "written_under": [label_of.get(x) for x in ids], "ids": ids})
+    shutil.rmtree(root, ignore_errors=True)
+    return {"shards": out, "n": v}
+
+
 def run(ctx):
+    # ---- two fillers alive at once: every listed shard is labelled with what its examples were written under
+    for j in range(ctx.pick(2, 8)):
+        ta = {"root": str(ctx.scratch / f"c11_two{j}"), "fmt": ["fb", "npz", "tfrec"][j % 3], "eps": 2 + j % 2, "steps": 14, "seed": ctx.seed * 100 + j}
+        from harness.core import child
+        r = child.call("harness.checks.c11", "two_live_fillers", ta, timeout=600)
+        seen = sorted(x for sh in r["shards"] for x in sh["ids"])
+        for sh in r["shards"]:
+            if any(w != sh["recorded"] for w in sh["written_under"]):
+                ctx.report({"kind": "label", "two_fillers": True},
+                           f"two fillers alive at once: a shard labelled {sh['recorded']} holds examples {sh['ids']} written under {sh['written_under']}", {"case": ta, "shard": sh})
+                break
+        else:
+            if seen != list(range(r["n"])):
+                ctx.report({"kind": "listing", "two_fillers": True}, f"two fillers alive at once: listed examples {seen[:20]} of {r['n']} written", {"case": ta})
     cases = F.explore(ctx, "C11")
     ctx.cov["selections_by_metadata"] = sum(selection_oracle(ctx, c) for c in cases)
     for c in cases:
